@@ -243,15 +243,20 @@ class Gen:
 
         def esyn(sid):
             return ext_syn.setdefault(sid, {'id': sid, 'external': True})
-        for be in r.sample(bent, min(len(bent), r.randint(1, 2))):
+        chosen = r.sample(bent, min(len(bent), r.randint(1, 2)))
+        # (entries whose further forms carry ids are rare; make sure ExternalForm gets its share)
+        with_ids = [e for e in bent if any(f.get('id') for f in e.get('forms', [])) and e not in chosen]
+        if with_ids and self.chance(0.7):
+            chosen.append(r.choice(with_ids))
+        for be in chosen:
             ee = {'id': be['id'], 'external': True}
-            if self.chance(0.6):
+            if self.chance(0.45):
                 lem = {'external': True}
                 self.form_children(lem)
                 ee['lemma'] = lem
             forms = []
             for bf in be.get('forms', []):
-                if bf.get('id') and self.chance(0.6):
+                if bf.get('id') and self.chance(0.75):
                     xf = {'id': bf['id'], 'external': True}
                     self.form_children(xf)
                     forms.append(xf)
